@@ -484,7 +484,72 @@ func runC19(c *core.Ctx) {
 		}
 		ktp, kerr := certificate.BuildKeyTypePayload(s, cr)
 		sh := gen.Shape{"sig": s, "crypto": cr, "payload_len": len(p)}
-		switch i % 3 {
+		directT := func(t int, payload []byte) entryOut {
+			o := entryOut{name: fmt.Sprintf("certificate.NewCertificateWithType(%d, payload)", t), whole: true}
+			c.Call(o.name, payload, func() {
+				ct, err := certificate.NewCertificateWithType(uint8(t), payload)
+				o.err = err
+				if err == nil && ct != nil {
+					o.ok, o.ser = true, ct.Bytes()
+				}
+			})
+			return o
+		}
+		switch i % 5 {
+		case 3:
+			// a payload set, then replaced — by another payload, by an empty one, by nil — on the same
+			// builder, with or without a Build in between: the LAST payload is the certificate's
+			t := []int{1, 3, 5, 0, 2}[r.Pick(5)]
+			p1 := r.Bytes(1 + r.Pick(12))
+			var p2 []byte
+			switch r.Pick(4) {
+			case 0:
+				p2 = nil
+			case 1:
+				p2 = []byte{}
+			case 2:
+				p2 = r.Bytes(1 + r.Pick(3))
+			default:
+				p2 = r.Bytes(4 + r.Pick(40))
+			}
+			mid := r.Chance(1, 2)
+			b := built("CertificateBuilder: WithType, WithPayload(p1), [Build], WithPayload(p2), Build", func(bd *certificate.CertificateBuilder) error {
+				if _, err := bd.WithType(uint8(t)); err != nil {
+					return err
+				}
+				bd.WithPayload(p1)
+				if mid {
+					bd.Build()
+				}
+				bd.WithPayload(p2)
+				return nil
+			})
+			sh["type"], sh["payload_len"], sh["first_payload_len"], sh["build_in_between"] = t, len(p2), len(p1), mid
+			compareEntries(c, "builder-sequence/payload-replaced", p2, sh, []entryOut{directT(t, p2), b})
+		case 4:
+			// key types built, then an explicit (possibly empty) payload on the reused builder
+			if kerr != nil {
+				return
+			}
+			var p2 []byte
+			if r.Chance(1, 2) {
+				p2 = []byte{}
+			}
+			if r.Chance(1, 4) {
+				p2 = r.Bytes(4 + r.Pick(8))
+			}
+			b := built("CertificateBuilder reused: WithKeyTypes, Build, WithPayload(p2), Build", func(bd *certificate.CertificateBuilder) error {
+				if _, err := bd.WithKeyTypes(s, cr); err != nil {
+					return err
+				}
+				if _, err := bd.Build(); err != nil {
+					return err
+				}
+				bd.WithPayload(p2)
+				return nil
+			})
+			sh["payload_len"] = len(p2)
+			compareEntries(c, "builder-sequence/keytypes-built-then-payload", p2, sh, []entryOut{direct(p2), b})
 		case 0:
 			if kerr != nil {
 				return
